@@ -1,13 +1,14 @@
 /-
   C13/Model — transcription of otto's Math object and global URI / escape functions.
 
-  builtin_math.go: builtinMathAbs (l.10) … builtinMathTrunc (l.211): every function is
-    `float64Value(math.F(call.Argument(0).float64()))`, except atan2 (l.40, NaN guards), max (l.112),
-    min (l.133), pow (l.154, NaN exponent and |x|==1 ∧ y=±Inf guard), round (l.174, floor(x) + exact
-    fraction test + Copysign).
-  builtin.go: builtinGlobalIsNaN (l.35), builtinGlobalIsFinite (l.40), encodeDecodeURI (l.168),
-    encodeURIRegexp (l.216), encodeURIComponentRegexp (l.222), decodeURIGuard (l.229), decodeURI (l.231),
-    builtinShouldEscape (l.261), builtinEscape (l.270), builtinUnescape (l.300).
+  builtin_math.go: builtinMathAbs (l.10) … builtinMathTrunc (l.210): every function is
+    `float64Value(math.F(call.Argument(0).float64()))`, except atan2 (l.40, both arguments converted, then
+    the NaN guard), max (l.109) and min (l.131) (every argument converted, NaN remembered), pow (l.153, NaN
+    exponent and |x|==1 ∧ y=±Inf guard), round (l.173, floor(x) + exact fraction test + Copysign).
+  builtin.go: builtinGlobalIsNaN, builtinGlobalIsFinite, encodeDecodeURI, encodeURIRegexp,
+    encodeURIComponentRegexp, decodeURIGuard, decodeURI, builtinShouldEscape (l.246), builtinEscape (l.255),
+    builtinUnescapeUnits (l.290), builtinGlobalUnescape (l.325); builtin_string.go: utf16Value (l.472);
+    evaluate.go: the string case of `+` (l.64).
 
   Go library behaviour that otto relies on is written out here as stubs (trusted base §2.6, validated
   per sample by the harness): the special-case prologues of math.Sin/Cos/…/Pow/Atan2/Max/Min
@@ -116,7 +117,7 @@ def mathFloor (x : FV) : FV := floor x
 def mathCeil (x : FV) : FV := ceil x
 def mathTrunc (x : FV) : FV := trunc x
 
-/-- builtinMathRound (l.174): `value := math.Floor(number); if number-value >= 0.5 { value++ };
+/-- builtinMathRound (l.173): `value := math.Floor(number); if number-value >= 0.5 { value++ };
     if value == 0 { value = math.Copysign(0, number) }` -/
 def mathRound (x : FV) : FV :=
   let value := floor x
@@ -137,34 +138,33 @@ def goMin (x y : FV) : FV :=
   else if isZero x && isZero y then (if signBit x then x else y)
   else if lt x y then x else y
 
-/-- the loop of builtinMathMax/Min: returns NaN as soon as a NaN argument is met -/
-def foldNaN (op : FV → FV → FV) : FV → List FV → FV
-  | r, [] => r
-  | r, v :: rest => if isNaN v then .nan else foldNaN op (op r v) rest
+/-- the loop of builtinMathMax/Min: every argument is converted and combined; `nan` remembers whether a
+    NaN was seen (`isNaN := math.IsNaN(result)` … `if math.IsNaN(value) { isNaN = true }`) -/
+def foldFlag (op : FV → FV → FV) : FV → Bool → List FV → FV × Bool
+  | r, n, [] => (r, n)
+  | r, n, v :: rest => foldFlag op (op r v) (n || isNaN v) rest
 
-/-- builtinMathMax (l.112) -/
+/-- builtinMathMax (l.109) -/
 def mathMax : List FV → FV
   | [] => .inf true
   | [a] => a
-  | a :: rest => if isNaN a then .nan else foldNaN goMax a rest
+  | a :: rest => let p := foldFlag goMax a (isNaN a) rest; if p.2 then .nan else p.1
 
-/-- builtinMathMin (l.133) -/
+/-- builtinMathMin (l.131) -/
 def mathMin : List FV → FV
   | [] => .inf false
   | [a] => a
-  | a :: rest => if isNaN a then .nan else foldNaN goMin a rest
+  | a :: rest => let p := foldFlag goMin a (isNaN a) rest; if p.2 then .nan else p.1
 
 /-- How many arguments builtinMathMax/Min convert with `.float64()` (ToNumber; observable when an argument
-    is an object with a valueOf): the `for … range` loop returns at the first NaN it meets. -/
-def convertedLoop : List FV → Nat
-  | [] => 0
-  | v :: rest => if isNaN v then 1 else 1 + convertedLoop rest
-
-/-- builtinMathMax (l.112) / builtinMathMin (l.133): number of converted arguments (a prefix of the list) -/
+    is an object with a valueOf): the first, then one per iteration of the `for … range` loop. -/
 def maxMinConverted : List FV → Nat
   | [] => 0
   | [_] => 1
-  | a :: rest => if isNaN a then 1 else 1 + convertedLoop rest
+  | _ :: rest => 1 + rest.length
+
+/-- builtinMathAtan2 (l.40) and builtinMathPow (l.153) convert both arguments before anything else -/
+def binaryConverted : Nat := 2
 
 /-- pow.go isOddInt (l.7): `Abs(x) >= 1<<53 → false; xi, xf := Modf(x); xf == 0 && int64(xi)&1 == 1` -/
 def isOddInt (x : FV) : Bool :=
@@ -206,7 +206,7 @@ def goPow (L : Lib) (x y : FV) : FV :=
       else L.powCore x y
     | _, _ => .nan
 
-/-- builtinMathPow (l.154): `if math.IsNaN(y) || (math.Abs(x) == 1 && math.IsInf(y, 0)) { return NaN }` -/
+/-- builtinMathPow (l.153): `if math.IsNaN(y) || (math.Abs(x) == 1 && math.IsInf(y, 0)) { return NaN }` -/
 def mathPow (L : Lib) (x y : FV) : FV :=
   if isNaN y || (eqNum (abs x) one && isInf y) then .nan else goPow L x y
 
@@ -225,9 +225,9 @@ def goAtan2 (L : Lib) (y x : FV) : FV :=
     let q := goFn1 L .atan (div y x)
     if lt x zero then (if le q zero then add q pi else sub q pi) else q
 
-/-- builtinMathAtan2 (l.40) -/
+/-- builtinMathAtan2 (l.40): `if math.IsNaN(y) || math.IsNaN(x) { return NaN }` -/
 def mathAtan2 (L : Lib) (y x : FV) : FV :=
-  if isNaN y then .nan else if isNaN x then .nan else goAtan2 L y x
+  if isNaN y || isNaN x then .nan else goAtan2 L y x
 
 /-- builtinGlobalIsNaN (builtin.go l.35) -/
 def globalIsNaN (E : C05.Env) (v : C05.Val) : Bool := isNaN (C05.toFloat E v)
@@ -336,7 +336,7 @@ def decodeURI (reserve : Bool) (v : SV) : Option (List Nat) :=
   | none => none
   | some out => if validUTF8 out then some out else none
 
-/-- builtinShouldEscape (l.261): alnum and `@*_+-./` are kept -/
+/-- builtinShouldEscape (l.246): alnum and `@*_+-./` are kept -/
 def shouldEscape (c : Nat) : Bool := !(isAlnum c || [64, 42, 95, 43, 45, 46, 47].contains c)
 
 def pctU (u : Nat) : List Nat :=
@@ -346,7 +346,7 @@ def pctU (u : Nat) : List Nat :=
 def escapeRune (r : Nat) : List Nat :=
   (utf16Encode [r]).flatMap fun chr16 => if chr16 < 256 then pct chr16 else pctU chr16
 
-/-- builtinEscape (l.270), fuel = len(input) -/
+/-- builtinEscape (l.255), fuel = len(input) -/
 def escapeAux : Nat → List Nat → List Nat
   | 0, _ => []
   | _, [] => []
@@ -359,7 +359,7 @@ def escapeAux : Nat → List Nat → List Nat
 
 def escape (v : SV) : List Nat := let s := v.string; escapeAux s.length s
 
-/-- the loop of builtinUnescape (l.300): bytes → UTF-16 code units, fuel = len(input).  %uXXXX and %XX
+/-- the loop of builtinUnescapeUnits (l.290): bytes → UTF-16 code units, fuel = len(input).  %uXXXX and %XX
     contribute one unit; any other character is decoded (utf8.DecodeRuneInString) and re-encoded as units. -/
 def unescapeAux : Nat → List Nat → List Nat
   | 0, _ => []
@@ -376,7 +376,31 @@ def unescapeAux : Nat → List Nat → List Nat
     | some (r, w) => utf16Encode [r] ++ unescapeAux fuel ((c :: t).drop w)
     | none => []
 
-/-- builtinUnescape: `string(utf16.Decode(output))` -/
-def unescape (v : SV) : List Nat := let s := v.string; bytesOfUnits (unescapeAux s.length s)
+/-- ill-formed UTF-16: a surrogate code unit that is not part of a pair -/
+def hasLone : List Nat → Bool
+  | [] => false
+  | u :: v :: rest =>
+    if 0xD800 ≤ u ∧ u < 0xDC00 ∧ 0xDC00 ≤ v ∧ v < 0xE000 then hasLone rest
+    else if 0xD800 ≤ u ∧ u < 0xE000 then true
+    else hasLone (v :: rest)
+  | [u] => 0xD800 ≤ u ∧ u < 0xE000
+
+/-- utf16Value (builtin_string.go l.472): a Go string unless the units contain an unpaired surrogate -/
+def utf16Value (us : List Nat) : SV := if hasLone us then .u16 us else .go (bytesOfUnits us)
+
+/-- the UTF-16 code units of a string Value -/
+def SV.units : SV → List Nat
+  | .go b => utf16Encode (decodeRunes b)
+  | .u16 u => u
+
+/-- builtinGlobalUnescape (l.325): `utf16Value(builtinUnescapeUnits(call.Argument(0).string()))` -/
+def unescape (v : SV) : SV := let s := v.string; utf16Value (unescapeAux s.length s)
+
+/-- the string case of `+` (evaluate.go l.63): Go strings are joined; if an operand is held as UTF-16 the
+    code units are concatenated and the result built with utf16Value -/
+def concat (a b : SV) : SV :=
+  match a, b with
+  | .go x, .go y => .go (x ++ y)
+  | _, _ => utf16Value (a.units ++ b.units)
 
 end OttoVerif.C13
